@@ -491,11 +491,11 @@ func (g *Gen) nullIffZero(o *Occ) {
 // cmpLeaf emits the comparison of two leaf values (pointer-backed or not).
 func cmpLeaf(w func(string, ...interface{}), l *Leaf, a, b, lab string) {
 	if l.Ptr {
-		w(`vrt.Assert("C04+C19/"+path+"%s:nil", (%s == nil) == (%s == nil))`, lab, a, b)
-		w(`if %s != nil && %s != nil { vrt.Assert("C04+C19/"+path+"%s", %s) }`, a, b, lab, leafEq(l, "*"+a, "*"+b))
+		w(`vrt.Assert(pl+path+"%s:nil", (%s == nil) == (%s == nil))`, lab, a, b)
+		w(`if %s != nil && %s != nil { vrt.Assert(pl+path+"%s", %s) }`, a, b, lab, leafEq(l, "*"+a, "*"+b))
 		return
 	}
-	w(`vrt.Assert("C04+C19/"+path+"%s", %s)`, lab, leafEq(l, a, b))
+	w(`vrt.Assert(pl+path+"%s", %s)`, lab, leafEq(l, a, b))
 }
 
 func (g *Gen) slotZero(s *Slot, base string) string {
@@ -546,7 +546,7 @@ func (g *Gen) normEq(o *Occ) {
 	}
 	var b strings.Builder
 	w := func(format string, a ...interface{}) { fmt.Fprintf(&b, "\t"+format+"\n", a...) }
-	w("_, _ = a, b")
+	w("_, _, _, _ = a, b, ps, pl")
 	emit := func(s *Slot) {
 		xa, xb := "a"+s.Access, "b"+s.Access
 		lab := "." + s.GoName
@@ -554,40 +554,40 @@ func (g *Gen) normEq(o *Occ) {
 		case SScalar:
 			cmpLeaf(w, s.Leaf, xa, xb, lab)
 		case SList:
-			w(`vrt.Assert("C04/"+path+"%s:len", len(%s) == len(%s))`, lab, xa, xb)
+			w(`vrt.Assert(ps+path+"%s:len", len(%s) == len(%s))`, lab, xa, xb)
 			w(`for i := range %s { if i < len(%s) {`, xa, xb)
 			cmpLeaf(w, s.Leaf, xa+"[i]", xb+"[i]", lab+"[]")
 			w(`} }`)
 		case SMap:
-			w(`vrt.Assert("C04/"+path+"%s:len", len(%s) == len(%s))`, lab, xa, xb)
-			w(`for k, va := range %s { vb, ok := %s[k]; vrt.Assert("C04/"+path+"%s:key", ok); if ok {`, xa, xb, lab)
+			w(`vrt.Assert(ps+path+"%s:len", len(%s) == len(%s))`, lab, xa, xb)
+			w(`for k, va := range %s { vb, ok := %s[k]; vrt.Assert(ps+path+"%s:key", ok); if ok {`, xa, xb, lab)
 			cmpLeaf(w, s.Leaf, "va", "vb", lab+"[]")
 			w(`} }`)
 		case SMsg:
 			if s.SubPtr {
-				w(`vrt.Assert("C04/"+path+"%s:nil", (%s == nil) == (%s == nil))`, lab, xa, xb)
-				w(`if %s != nil && %s != nil { normEq_%s(%s, %s, path+"%s") }`, xa, xb, s.Sub.ID, xa, xb, lab)
+				w(`vrt.Assert(ps+path+"%s:nil", (%s == nil) == (%s == nil))`, lab, xa, xb)
+				w(`if %s != nil && %s != nil { normEq_%s(%s, %s, ps, pl, path+"%s") }`, xa, xb, s.Sub.ID, xa, xb, lab)
 			} else {
-				w(`normEq_%s(&%s, &%s, path+"%s")`, s.Sub.ID, xa, xb, lab)
+				w(`normEq_%s(&%s, &%s, ps, pl, path+"%s")`, s.Sub.ID, xa, xb, lab)
 			}
 		case SMsgList:
-			w(`vrt.Assert("C04/"+path+"%s:len", len(%s) == len(%s))`, lab, xa, xb)
+			w(`vrt.Assert(ps+path+"%s:len", len(%s) == len(%s))`, lab, xa, xb)
 			w(`for i := range %s { if i < len(%s) {`, xa, xb)
 			if s.SubPtr {
-				w(`vrt.Assert("C04/"+path+"%s[]:nil", (%s[i] == nil) == (%s[i] == nil))`, lab, xa, xb)
-				w(`if %s[i] != nil && %s[i] != nil { normEq_%s(%s[i], %s[i], path+"%s[]") }`, xa, xb, s.Sub.ID, xa, xb, lab)
+				w(`vrt.Assert(ps+path+"%s[]:nil", (%s[i] == nil) == (%s[i] == nil))`, lab, xa, xb)
+				w(`if %s[i] != nil && %s[i] != nil { normEq_%s(%s[i], %s[i], ps, pl, path+"%s[]") }`, xa, xb, s.Sub.ID, xa, xb, lab)
 			} else {
-				w(`normEq_%s(&%s[i], &%s[i], path+"%s[]")`, s.Sub.ID, xa, xb, lab)
+				w(`normEq_%s(&%s[i], &%s[i], ps, pl, path+"%s[]")`, s.Sub.ID, xa, xb, lab)
 			}
 			w(`} }`)
 		case SMsgMap:
-			w(`vrt.Assert("C04/"+path+"%s:len", len(%s) == len(%s))`, lab, xa, xb)
-			w(`for k, va := range %s { vb, ok := %s[k]; vrt.Assert("C04/"+path+"%s:key", ok); if ok {`, xa, xb, lab)
+			w(`vrt.Assert(ps+path+"%s:len", len(%s) == len(%s))`, lab, xa, xb)
+			w(`for k, va := range %s { vb, ok := %s[k]; vrt.Assert(ps+path+"%s:key", ok); if ok {`, xa, xb, lab)
 			if s.SubPtr {
-				w(`vrt.Assert("C04/"+path+"%s[]:nil", (va == nil) == (vb == nil))`, lab)
-				w(`if va != nil && vb != nil { normEq_%s(va, vb, path+"%s[]") }`, s.Sub.ID, lab)
+				w(`vrt.Assert(ps+path+"%s[]:nil", (va == nil) == (vb == nil))`, lab)
+				w(`if va != nil && vb != nil { normEq_%s(va, vb, ps, pl, path+"%s[]") }`, s.Sub.ID, lab)
 			} else {
-				w(`normEq_%s(&va, &vb, path+"%s[]")`, s.Sub.ID, lab)
+				w(`normEq_%s(&va, &vb, ps, pl, path+"%s[]")`, s.Sub.ID, lab)
 			}
 			w(`} }`)
 		}
@@ -616,7 +616,7 @@ func (g *Gen) normEq(o *Occ) {
 			zb = append(zb, g.slotZero(s, "b"))
 		}
 		w(`{ an := a%s == nil || (%s); bn := b%s == nil || (%s)`, ep, strings.Join(za, " && "), ep, strings.Join(zb, " && "))
-		w(`  vrt.Assert("C04/"+path+"%s:nil-or-zero", an == bn)`, ep)
+		w(`  vrt.Assert(ps+path+"%s:nil-or-zero", an == bn)`, ep)
 		w(`  if !an && !bn {`)
 		for _, s := range groups[ep] {
 			emit(s)
@@ -629,20 +629,20 @@ func (g *Gen) normEq(o *Occ) {
 			continue
 		}
 		sel := g.oneofSel(o, grp)
-		w(`{ sa, sb := %s(a), %s(b); vrt.Assert("C04/"+path+".%s:branch", sa == sb)`, sel, sel, grp.GoName)
+		w(`{ sa, sb := %s(a), %s(b); vrt.Assert(ps+path+".%s:branch", sa == sb)`, sel, sel, grp.GoName)
 		for i, s := range grp.Slots {
 			w(`  if sa == %d && sb == %d { wa, _ := a.%s.(*%s%s); wb, _ := b.%s.(*%s%s); _, _ = wa, wb`, i+1, i+1, grp.GoName, g.TQ, s.Wrapper, grp.GoName, g.TQ, s.Wrapper)
 			switch s.Kind {
 			case SScalar:
 				cmpLeaf(w, s.Leaf, "wa."+s.GoName, "wb."+s.GoName, "."+s.GoName)
 			case SMsg:
-				w(`    normEq_%s(wa.%s, wb.%s, path+".%s")`, s.Sub.ID, s.GoName, s.GoName, s.GoName)
+				w(`    normEq_%s(wa.%s, wb.%s, ps, pl, path+".%s")`, s.Sub.ID, s.GoName, s.GoName, s.GoName)
 			}
 			w(`  }`)
 		}
 		w(`}`)
 	}
-	g.p("func normEq_%s(a, b *%s%s, path string) {\n%s}\n", o.ID, g.TQ, o.MsgName, b.String())
+	g.p("func normEq_%s(a, b *%s%s, ps, pl, path string) {\n%s}\n", o.ID, g.TQ, o.MsgName, b.String())
 	for _, s := range o.Slots {
 		if s.Sub != nil {
 			g.normEq(s.Sub)
@@ -674,7 +674,7 @@ func (g *Gen) harnessRT(o *Occ) {
 	d2 := %sCopy%sFromTerraform(ctx, tf, &back)
 	vrt.CheckNoPanic("C04/%s/roundtrip:no-panic")
 	vrt.Assert("C04/%s/copyfrom:no-error-diagnostic", !d2.HasError())
-	normEq_%s(&obj, &back, %q)
+	normEq_%s(&obj, &back, "C04/", "C04+C19/", %q)
 	vrt.Reach("RT/%s/end")
 }
 `, name, g.TQ, o.MsgName, o.MsgName, o.ID, g.FQ, o.MsgName, o.ID, o.ID, o.ID, o.ID, o.ID, o.ID, g.TQ, o.MsgName, g.FQ, o.MsgName, o.ID, o.ID, o.ID, o.ID, o.ID)
@@ -687,6 +687,7 @@ func (g *Gen) file(pkg string, imports []string) string {
 		fmt.Fprintf(&sb, "\t%s\n", i)
 	}
 	sb.WriteString(")\n\nvar _ = time.Now\nvar _ = context.Background\nvar _ attr.Type\nvar _ = types.StringType\nvar _ = vrt.Bool\nvar _ diag.Diagnostics\n\n")
+	sb.WriteString(tfOptDecl)
 	sb.WriteString(g.sb.String())
 	sort.Strings(g.hs)
 	sb.WriteString("// Harnesses is the replay dispatch table.\nvar Harnesses = map[string]func(){\n")
